@@ -1209,15 +1209,16 @@ func (x *Exec) evalIdent(st *State, env *Env, name string) Value {
 			}
 		}
 	}
+	if nn, ok := x.renamed[name]; ok && nn != name {
+		// the local was renamed since the contract was written (same position, same type); this
+		// comes before the package scope: the old name of a parameter may also be a package constant
+		x.note("local " + name + " of the function under contract is now called " + nn)
+		return x.evalIdent(st, env, nn)
+	}
 	if env.pkg != nil {
 		if _, ok := env.pkg.Members[name]; ok {
 			return x.pkgMember(st, env.pkg, name)
 		}
-	}
-	if nn, ok := x.renamed[name]; ok && nn != name {
-		// the local was renamed since the contract was written (same position, same type)
-		x.note("local " + name + " of the function under contract is now called " + nn)
-		return x.evalIdent(st, env, nn)
 	}
 	fail("unknown identifier %q in spec expression", name)
 	return nil
